@@ -150,6 +150,7 @@ type cacheStep struct {
 	view   []WalkEnt
 	hasR   bool
 	hasV   bool
+	lobs   []listObs // C07: listings taken in the state after this step, with what their entries say (c07_listing.go)
 }
 
 func (s cacheStep) coq() string {
@@ -207,11 +208,16 @@ func runCache(o *Out, rng *RNG, tier string, prop string, replay string) {
 	gen := defaultFsGen()
 	gen.ViewPct = 0
 	gen.ClimbPct = 8
+	if prop == "C07" {
+		o.Imports = "From GC Require Import Common.Base Model.Paths Model.Fs Model.Cache Model.CacheList Corr.FsCorr Corr.C06 Corr.C07."
+		o.CaseType = "GC.Corr.C07.case"
+		o.CheckFn = "GC.Corr.C07.check"
+	}
 	if prop == "C06" {
 		o.Rule = "initial remote trees of 0-8 nodes x histories of 1-25 cache operations (write, writer, mkdir, remove, recursive remove, file/dir copy, some reads) on overlapping paths with 1-3 Commits, a third of the Commits with an injected failure of the k-th mutating remote call (every k over the run). Oracles: remote unchanged before Commit; after a successful Commit remote == plain tree obtained by applying the successful operations directly; failure reported and a later Commit converges. Non-trivial: at least one successful mutation and one Commit; distinct by op sequence."
 		gen.Kinds = []string{"Copy", "CopyDir", "CopyFile", "MkdirAll", "MkdirAll", "WriteFile", "WriteFile", "WriteFile", "Writer", "Writer", "Remove", "Remove", "RemoveAll", "RemoveAll", "ReadDir", "IsExist", "ReadFile"}
 	} else {
-		o.Rule = "initial remote trees of 0-8 nodes x histories interleaving mutating cache operations with all read-type operations (exists/is-file/is-dir/read/reader/list/stat, copy sources) on the touched path, its parent and siblings, before any Commit and after; a third of the reads go through child views (Filespace) of the cache. Oracle: every answer equals the plain tree with the pending operations applied on top of the remote; listings name each entry once. Non-trivial: a read after at least one successful mutation; distinct by op sequence."
+		o.Rule = "initial remote trees of 0-8 nodes x histories interleaving mutating cache operations with all read-type operations (exists/is-file/is-dir/read/reader/list/stat, copy sources) on the touched path, its parent and siblings, before any Commit and after; a third of the reads go through child views (Filespace) of the cache. Oracle: every answer equals the plain tree with the pending operations applied on top of the remote; listings name each entry once. After every successful mutation and Commit every visible directory is listed on the cache and through child views (one per top-level directory, a nested one per second-level directory) and every ENTRY is judged: kind, and for a file Size() = length of the pending content (what Lstat and a read answer) - also for every ReadDir of the history; the same listings are compared with the model's described listing in Coq. Non-trivial: a read after at least one successful mutation; distinct by op sequence."
 		gen.Kinds = []string{"Copy", "CopyFile", "MkdirAll", "WriteFile", "WriteFile", "Writer", "Remove", "RemoveAll", "RemoveAll",
 			"ReadDir", "ReadDir", "IsExist", "IsExist", "IsFile", "IsDir", "ReadFile", "ReadFile", "Reader", "Lstat", "Lstat"}
 	}
@@ -239,6 +245,8 @@ func runCache(o *Out, rng *RNG, tier string, prop string, replay string) {
 			scripted = sweepScript(r, gen)
 		}
 		var steps []cacheStep
+		var obs0 []listObs       // C07: listings taken before the first recorded step
+		c07vs := newC07Views()   // C07: child views kept across the operations of this history
 		committed := ref.Clone() // what the remote must look like (last successful Commit)
 		remoteDirty := false     // a faulty Commit left the remote in an intermediate state
 		fail, sig := "", ""
@@ -275,6 +283,13 @@ func runCache(o *Out, rng *RNG, tier string, prop string, replay string) {
 			st.view, st.hasV = w, true
 			if eq, why := walkEqual(w, ref.Walk()); !eq {
 				setFail("the tree seen through the cache differs from remote+pending operations: "+why, "view")
+			}
+			if prop == "C07" && fail == "" {
+				obs, msg := c07DescribedWalks(o, c07vs, cache, ref, committed)
+				st.lobs = append(st.lobs, obs...)
+				if msg != "" {
+					setFail("a listing entry does not describe the node as pending: "+msg, "read:ReadDir-entry")
+				}
 			}
 		}
 		doCommit := func(faultAt int) {
@@ -333,6 +348,10 @@ func runCache(o *Out, rng *RNG, tier string, prop string, replay string) {
 				// read through a child view of the cache
 				b := gen.comps(r)[:1]
 				v, err := cache.Filespace(b[0])
+				if hv := c07vs.heldTop(b[0]); hv != nil && err == nil && j%2 == 1 {
+					v = hv // a view of that directory created at an earlier step and kept since
+					o.Stat("read_through_view_held_since_earlier_step")
+				}
 				if err == nil {
 					target = v
 					viewBaseComps = b
@@ -359,6 +378,20 @@ func runCache(o *Out, rng *RNG, tier string, prop string, replay string) {
 			if out.Kind == "hang" || out.Kind == "panic" {
 				steps = append(steps, st)
 				break
+			}
+			if prop == "C07" && op.Kind == "ReadDir" && out.Kind == "list" && fail == "" {
+				ob, ok, msg := c07ListingOfOp(target, ref, viewBaseComps, op)
+				if msg != "" {
+					setFail(fmt.Sprintf("step %d: a listing entry does not describe the node as pending: %s", j, msg), "read:ReadDir-entry")
+				}
+				if ok && len(op.View) == 0 {
+					st.lobs = append(st.lobs, ob)
+				} else if ok && len(steps) > 0 { // a read through a child view is no step of the model: the state is the one after the last step
+					steps[len(steps)-1].lobs = append(steps[len(steps)-1].lobs, ob)
+				} else if ok {
+					obs0 = append(obs0, ob)
+				}
+				o.Stat("listing_of_history_judged")
 			}
 			dirCopyErr := (op.Kind == "Copy" || op.Kind == "CopyDir") && out.Kind == "err"
 			if isMutating(op.Kind) && out.Kind == "unit" {
@@ -430,6 +463,13 @@ func runCache(o *Out, rng *RNG, tier string, prop string, replay string) {
 		if plan != nil {
 			fmt.Fprintf(&keyb, "fault@%d", plan.faultAt)
 			o.Stat("sweep_cases")
+		}
+		if prop == "C07" {
+			for k, s := range steps {
+				items[k] = fmt.Sprintf("mkLStep (%s) %s", items[k], coqListObs(s.lobs))
+			}
+			o.AddCase(fmt.Sprintf("CList %s %s %s", coqWalk(initWalk), coqListObs(obs0), coqList(items)), desc, keyb.String(), muts > 0 && commits > 0)
+			return fired
 		}
 		o.AddCase(fmt.Sprintf("CCache %s %s", coqWalk(initWalk), coqList(items)), desc, keyb.String(), muts > 0 && commits > 0)
 		return fired
